@@ -407,6 +407,7 @@ def add_frame_copy(tgt, f, src):
     if k in tgt["frames"]:
         return                                          # "Don't make duplicates": the frame already there wins
     tgt["frames"][k] = copy.deepcopy(f)
+    tgt["frames"][k]["_copied"] = True                 # where a copied frame is placed among the others is not documented
     tgt["frame_order"].append(k)
     for n in list(f["transmitters"]) + [r for s in f["signals"].values() for r in s["receivers"]]:
         if n in src["ecus"] and n not in tgt["ecus"]:
@@ -526,21 +527,29 @@ def layout(nf):
 
 
 def compare(expected_st, observed_nf, level="full"):
-    """list of differences between the oracle's description and the re-read output"""
-    if level == "layout":
-        exp = finalize({k: v for k, v in expected_st.items() if not k.startswith("_")})
-        return matgen.diff(layout(exp), layout(observed_nf))
+    """list of differences between the oracle's description and the re-read output.
+    Frame order: the frames the options leave in place keep their relative order (nothing else changes); the documentation of
+    --ecus / --frames / --merge names WHICH frames are copied, not where a copied frame is placed among the others, so the
+    position of copied frames is not compared."""
     exp = finalize(expected_st)
     selected = exp.pop("_selected", False)
     merged = exp.pop("_merged", False)
     for k in ("_source", "_keep"):
         exp.pop(k, None)
+    copied = {k for k, f in exp["frames"].items() if f.pop("_copied", False)}
+    exp_order = [k for k in exp["frame_order"] if k not in copied]
+    obs_order = [k for k in observed_nf["frame_order"] if k not in copied]
+    order_diff = [("/frame_order (frames left in place)", exp_order, obs_order)] if exp_order != obs_order else []
+    if level == "layout":
+        le, lo = layout(exp), layout(observed_nf)
+        le.pop("order"), lo.pop("order")
+        return matgen.diff(le, lo) + order_diff
     e, o = view(exp), view(observed_nf)
     if selected or merged:
         # a new matrix / a merged one: the documentation speaks about frames, ECUs and their attributes; every attribute carried
         # by a kept object must still be defined as in the source; what else the new matrix holds is not documented
-        out = []
-        for part in ("frames", "frame_order", "ecus", "free_list"):
+        out = list(order_diff)
+        for part in ("frames", "ecus", "free_list"):
             out += matgen.diff(e[part], o[part], "/" + part)
         for cat, objs in (("frame_defines", list(e["frames"].values())), ("ecu_defines", list(e["ecus"].values())),
                           ("signal_defines", [s for f in e["frames"].values() for s in f["signals"].values()] + e["free_list"])):
@@ -1141,6 +1150,38 @@ def strip_uids(groups):
     return out
 
 
+def in_syntax(opt, arg):
+    """the argument is written as the option's documentation says (numbers: decimal integers; tuples: exactly one ':')"""
+    import re
+    num = lambda x: re.fullmatch(r"[+-]?[0-9]+", x) is not None
+    if opt in ("frameIdIncrement", "skipLongDlc", "cutLongFrames"):
+        return num(arg)
+    if opt == "changeFrameId":
+        return all(len(t.split(":")) == 2 and all(num(x) for x in t.split(":")) for t in arg.split(","))
+    if opt == "addFrameReceiver":
+        return all(len(t.split(":")) == 2 and all(t.split(":")) for t in arg.split(","))
+    return True
+
+
+def known_group_names(db):
+    """names a signal group can have by documentation: the names of the PDUs and of the groups that exist already"""
+    return {p.name for f in db.frames for p in f.pdus if p.name} | {g.name for f in db.frames for g in f.signalGroups}
+
+
+def canon_labels(groups, known):
+    """the name convert() invents for the signal group of an UNNAMED contained PDU is not documented: projected away (empty
+    name) on both sides of the tie; members, group number and every named group stay compared"""
+    out = []
+    for g in groups:
+        if g and g[0] == 5:
+            n = g[2]
+            name = "".join(chr(c) for c in g[3:3 + n])
+            if name not in known:
+                g = g[:2] + [0] + g[3 + n:]
+        out.append(g)
+    return out
+
+
 def cl_groups(opts):
     return [[10, KIND[k]] + codes("" if k in SWITCHES else v) for k, v in opts]
 
@@ -1381,14 +1422,23 @@ def _run(chk, rng, thorough, ok, C, R, tmp):
     def tie_direct(inp_db, opts, fn_res, inf, shard=False):
         if not all(k in DIRECT for k, _ in opts):
             return
+        if not all(in_syntax(k, a) for k, a in opts):
+            # an argument outside the documented syntax (a number that is not a decimal integer, a tuple without exactly one
+            # ':'): the property says nothing about it - neither judged nor tied (the parsing functions themselves are tied to
+            # Python's str.split / int in the option-strings suite)
+            chk.count("tie-skipped-argument-outside-syntax")
+            return
         groups = cl_groups(opts) + matrix_groups(inp_db, intern)
+        known = known_group_names(inp_db)
         if fn_res["status"] in ("ok", "dumpfail", "unreadable") and fn_res["db"] is not None:
-            exp = [[1]] + strip_uids(matrix_groups(fn_res["db"], intern))
+            raw = strip_uids(matrix_groups(fn_res["db"], intern))
+            exp = [[1]] + canon_labels(raw, known)
+            shard = shard and exp[1:] == raw
         elif fn_res["status"] == "exc":
             exp = [[0]]
         else:
             return
-        add_model(1807, groups, exp, inf, shard)
+        add_model(1807, groups, exp, dict(inf, known_group_names=sorted(known)), shard)
 
     # ---- single options ----
     sampled = 0
@@ -1549,13 +1599,11 @@ def _run(chk, rng, thorough, ok, C, R, tmp):
                           replay_input(inp, opts), "same result", "%s / %s" % (res["fn"].get("exc"), res["cli"].get("exc")))
         tie_direct(in_db, opts, res["fn"], dict(input=inp["idx"], options=opts))
         # `given by truth value` (cmd 1810): an empty --ecus / --frames / --signals selects nothing if it counted as given (the
-        # output would be an empty matrix) - it must not count; an empty tuple / number argument counts (and raises)
+        # output would be an empty matrix) - it must not count
         if arg == "":
             if opt in ("ecus", "frames", "signals") and res["fn"]["status"] == "ok":
                 given = len(res["fn"]["nf"]["frames"]) == 0
                 add_model(1810, [[KIND[opt]], []], [[int(given)]], dict(option=opt, argument=""), True)
-            elif res["fn"]["status"] == "exc":
-                add_model(1810, [[KIND[opt]], []], [[1]], dict(option=opt, argument=""), True)
 
     # ---- small in-memory matrices (wrapped loadp): volume tie of the directly modelled options, PDU containers ----
     n_tiny = 400 if not thorough else 12000
@@ -1583,7 +1631,10 @@ def _run(chk, rng, thorough, ok, C, R, tmp):
         newdb = C.CanMatrix()
         for f in db.frames:
             newdb.add_frame(convert_pdu_container_to_multiplexed(f))
-        add_model(1809, matrix_groups(db, intern), strip_uids(matrix_groups(newdb, intern)), dict(pdu_function=i), True)
+        known = known_group_names(db)
+        raw = strip_uids(matrix_groups(newdb, intern))
+        add_model(1809, matrix_groups(db, intern), canon_labels(raw, known), dict(pdu_function=i, known_group_names=sorted(known)),
+                  canon_labels(raw, known) == raw)
         chk.count("pdu-function")
 
     # ---- option strings: the parsing functions against Python ----
@@ -1651,6 +1702,9 @@ def _run(chk, rng, thorough, ok, C, R, tmp):
     known_keys = {k.get("key") for k in chk.known}
     for i, (l, e, o) in enumerate(zip(lines, expect, out)):
         got = core.parse_out(o)
+        if "known_group_names" in info[i]:
+            kn = set(info[i]["known_group_names"])
+            got = ([got[0]] + canon_labels(got[1:], kn)) if l.startswith("70f ") else canon_labels(got, kn)
         if got != e:
             if "opt-changeFrameId-effect" in known_keys and l.startswith("70f "):
                 alt = core.parse_out(core.run_model(["710 " + l.split(" ", 1)[1]])[0])
@@ -1709,6 +1763,8 @@ def judge_compress(chk, R, inp, opts):
     except Silent:
         return None, False, res
     e = {k: v for k, v in e.items() if not k.startswith("_")}
+    for f in e["frames"].values():
+        f.pop("_copied", None)
     o = fn["nf"]
     by_name = {f["name"]: f for f in o["frames"].values()}
     changed = False
